@@ -17,7 +17,7 @@ RULE = ("AST-first random well-typed queries with filter selectors (tests on rel
         "embedded queries) rendered with random spelling, applied to documents planted from the query (falsy scalars, empty "
         "containers, missing members); oracle = RFC 9535 filter semantics. Non-trivial: some filter was evaluated on >=2 children "
         "with both outcomes; distinct by (AST, document). truth_table = (expression kind, child kind, outcome) cells observed by the oracle."
-        " One case in five also re-applies the same compiled query: suspended while it is applied to another document, after the document was updated in place, and after an abandoned evaluation; every application is compared with the model.")
+        " One case in five also re-applies the same compiled query: suspended while it is applied to another document, after the document was updated in place, and after an abandoned evaluation; every application is compared with the model. A chain battery evaluates long flat mixed && / || chains (12-160 operands) plainly and from 99 call-stack depths up to the recursion limit: the model's selection or out-of-stack, never another selection.")
 ASSUMPTIONS = SD_ASSUME = ["reference evaluator vf/oracle/sem.py transcribes RFC 9535 2.3.5 correctly (cross-validated against the repository's IETF tables by ./selfcheck)",
                            "function calls restricted to the five built-ins; patterns for match/search come from a pool on which the I-Regexp oracle is exact"]
 DECIDING_MONITORS = ["M-find"]
@@ -148,6 +148,48 @@ def reuse_case(jp, rec, R, text, q, doc):
     return None
 
 
+def chain_battery(jp, rec, R, model):
+    """Long FLAT mixed && / || chains (no nesting), evaluated plainly and from a band of call-stack depths close to the
+    recursion limit: the selection is the model's, or the evaluation runs out of stack - never a different selection."""
+    from .. import mon
+    from ..worker import jsonable
+    names = ["a", "b", "c", "d", "e"]
+    for n_ops in (12, 40, 90, 160):
+        for trial in range(3):
+            ands = []
+            cur = []
+            for i in range(n_ops):
+                nm = R.choice(names)
+                atom = R.choice([("test", ("q", "@", (("child", (("name", nm),)),))), ("cmp", "==", ("q", "@", (("child", (("name", nm),)),)), ("lit", 1)),
+                                 ("not", ("test", ("q", "@", (("child", (("name", nm),)),))))])
+                cur.append(atom)
+                if R.random() < 0.35 or i == n_ops - 1:
+                    ands.append(("and", tuple(cur)) if len(cur) > 1 else cur[0])
+                    cur = []
+            e = ("or", tuple(ands)) if len(ands) > 1 else ands[0]
+            q = ("q", "$", (("child", (("filter", e),)),))
+            text = G.render(q, R, ws="none")
+            doc = [{nm: R.choice([1, 0, None, "x"]) for nm in R.sample(names, R.randint(0, 5))} for _ in range(8)]
+            want = mon.want_sig(model.find(q, doc))
+            o = mon.observe(jp.compile, text)
+            if o[0] != "ok":
+                rec.violation("exception:" + type(o[1]).__name__, {"query": text, "observed": mon.describe_outcome(o), "source": "chain-battery"})
+                continue
+            c = o[1]
+            outcomes = [(0, mon._plain(lambda: mon.sig(list(c.finditer(doc))), ()))] + mon.depth_band(lambda: mon.sig(list(c.finditer(doc))), (), range(600, 996, 4))
+            for d, oo in outcomes:
+                rec.monitor("M-find")
+                rec.case(("chain", text, d), True)
+                rec.feat("chain-battery:" + ("plain" if d == 0 else "deep-stack"))
+                if oo[0] == "exc" and isinstance(oo[1], RecursionError):
+                    rec.feat("chain-battery:ran-out-of-stack")
+                    continue
+                if oo[0] != "ok" or oo[1] != want:
+                    rec.violation("chain-evaluated-from-deep-stack-differs" if d else "nodes", {"query": text, "document": jsonable(doc), "operands": n_ops, "extra_stack_depth": d,
+                                  "expected_locations": mon.locs_only(want), "observed": mon.locs_only(oo[1]) if oo[0] == "ok" else mon.describe_outcome(oo)})
+                    break
+
+
 def run_shard(spec, rec):
     import jsonpath_rfc9535 as jp
     R = random.Random(spec["seed"])
@@ -187,6 +229,8 @@ def run_shard(spec, rec):
                 rec.sample({"query": text, "document": D.short(doc), "nodes": len(want)})
             if key:
                 SD.report(jp, rec, key, text, q, doc, via)
+        if str(spec["seed"]).split("/")[-1] in ("0", "1", "2", "3", "4", "5"):
+            chain_battery(jp, rec, R, model)
     finally:
         SD.MODEL = saved
     rec.extra["truth_table"] = dict(model.cells)
